@@ -971,6 +971,101 @@ def r12(ctx, R):
         raise AnalysisError(f'C12.R12: only {n_dec} direct solves / closed forms decided')
 
 
+def _mat_sym(n, local):
+    """a 2-d array literal, possibly scaled by a scalar, -> sympy Matrix"""
+    import sympy as sp
+    if isinstance(n, ast.Name) and n.id in local:
+        return _mat_sym(local[n.id], {k: v for k, v in local.items() if k != n.id})
+    if isinstance(n, ast.Call) and ast.unparse(n.func).split('.')[-1] in ('array', 'asarray') and n.args and isinstance(n.args[0], ast.List) and n.args[0].elts and all(isinstance(r, ast.List) for r in n.args[0].elts):
+        return sp.Matrix([[_newton_sym(e, '__no_iterate__', local) for e in r.elts] for r in n.args[0].elts])
+    if isinstance(n, ast.BinOp) and isinstance(n.op, (ast.Mult, ast.Div)):
+        for sc, mt in ((n.left, n.right), (n.right, n.left)):
+            try:
+                M = _mat_sym(mt, local)
+            except _Unk:
+                continue
+            c = _newton_sym(sc, '__no_iterate__', local)
+            if isinstance(n.op, ast.Div):
+                if mt is n.left:
+                    return M / c
+                raise _Unk('scalar / matrix')
+            return c * M
+    raise _Unk(ast.unparse(n)[:40])
+
+
+def _matrix_candidates(scope, tr, local):
+    """(name, Matrix) for every 2-d literal assigned to a name in `scope`, with the `name /= c`, `name *= c` that follow applied"""
+    out = []
+    stmts = sorted((s for s in ast.walk(scope) if isinstance(s, (ast.Assign, ast.AugAssign))), key=lambda s: s.lineno)
+    for s in stmts:
+        if isinstance(s, ast.Assign) and len(s.targets) == 1 and isinstance(s.targets[0], ast.Name):
+            try:
+                M = _mat_sym(tr.visit(ast.parse(ast.unparse(s.value), mode='eval').body), local)
+            except (_Unk, RecursionError):
+                continue
+            name = s.targets[0].id
+            for a in stmts:
+                if isinstance(a, ast.AugAssign) and isinstance(a.target, ast.Name) and a.target.id == name and a.lineno > s.lineno and isinstance(a.op, (ast.Mult, ast.Div)):
+                    c = _newton_sym(tr.visit(ast.parse(ast.unparse(a.value), mode='eval').body), '__no_iterate__', local)
+                    M = M * c if isinstance(a.op, ast.Mult) else M / c
+            out.append((name, M))
+    return out
+
+
+@rule('C12', 'C12.R13', 'hand-written Jacobians of the small ODE systems belong to the residual: a 2-d array literal that a Newton loop (or the solve_jacobian it calls) builds is either the Jacobian dG/du of the component-wise residual G of that loop or its inverse (J^-1 J = I), symbolically - one wrong entry of a hand-inverted 3x3 Jacobian still converges (more slowly, to the tolerance) and no test looks at it', floor=4)
+def r13(ctx, R):
+    import sympy as sp
+    repo = ctx.repo
+    n_dec = 0
+    for ci in _problems(repo):
+        fn = ci.methods.get('solve_system')
+        if fn is None or len(fn.args.args) < 3:
+            continue
+        for loop in [l for l in ast.walk(fn) if isinstance(l, (ast.While, ast.For))]:
+            gs = [s for s in ast.walk(loop) if isinstance(s, ast.Assign) and len(s.targets) == 1 and isinstance(s.targets[0], ast.Name) and s.targets[0].id == 'g']
+            if len(gs) != 1:
+                continue
+            lens = [len(c.elts) for c in ast.walk(fn) if isinstance(c, ast.List) and c.elts and not isinstance(c.elts[0], ast.List)]
+            if not lens:
+                continue
+            k = lens[0]
+            upd = [s.target.id for s in ast.walk(loop) if isinstance(s, ast.AugAssign) and isinstance(s.target, ast.Name) and s.target.id not in ('n', 'res', 'it', 'k', 'niter', 'newton_iter')]
+            if not upd:
+                continue
+            uname = 'u' if 'u' in upd else upd[0]
+            w = f'{ci.module.relpath}:{ci.name}.solve_system'
+            c0 = f'{ci.name}.solve_system :: the hand-written Jacobian matrix is dG/du or its inverse'
+            try:
+                tr = _Components(fn, uname)
+                local = {a: tr.visit(ast.parse(ast.unparse(b), mode='eval').body) for a, b in _single_locals(fn, ('g', 'dg', uname)).items() if a not in tr.env}
+                G = _vec_sym(tr.visit(ast.parse(ast.unparse(gs[0].value), mode='eval').body), uname, local, k)
+                cands = _matrix_candidates(loop, tr, local)
+                sj = ci.methods.get('solve_jacobian')
+                if sj is not None and any(isinstance(c, ast.Call) and ast.unparse(c.func) == 'self.solve_jacobian' for c in ast.walk(loop)) and len(sj.args.args) >= 4:
+                    un = sj.args.args[3].arg
+                    trj = _Components(sj, un)
+                    lj = {a: trj.visit(ast.parse(ast.unparse(b), mode='eval').body) for a, b in _single_locals(sj, (un,)).items() if a not in trj.env}
+                    # the parameter names of solve_jacobian stand for the arguments of the call: dt stays dt by convention of the contract
+                    cands += [('solve_jacobian.' + nm, M) for nm, M in _matrix_candidates(sj, trj, lj)]
+            except (_Unk, RecursionError) as e:
+                R.note(c0, w, f'not decided: outside the vocabulary ({str(e)[:50]})')
+                continue
+            if not cands:
+                continue
+            us = [sp.Symbol(f'u_{j}') for j in range(k)]
+            J = sp.Matrix(G).jacobian(us)
+            for name, D in cands:
+                if D.shape != J.shape:
+                    continue
+                R.fn(w)
+                n_dec += 1
+                direct = sp.simplify(D - J) == sp.zeros(*J.shape)
+                inverse = direct or sp.simplify(D * J - sp.eye(k)) == sp.zeros(k, k)
+                R.check(direct or inverse, f'{ci.name}.solve_system :: `{name}` is dG/du or (dG/du)^-1', w, 'D = J or D J = I for J = jacobian of the residual of the loop', 'neither' if not (direct or inverse) else ('J' if direct else 'J^-1'))
+    if n_dec < 4:
+        raise AnalysisError(f'C12.R13: only {n_dec} hand-written Jacobians decided')
+
+
 @rule('C12', 'C12.R9', 'eval_f and the solver of one class embed the inner points in the SAME boundary values: where both prepare a scratch attribute of self (uext[0], uext[-1], ..), the entries with a fixed index are computed by the same expressions (found and repaired F29 on the semi-implicit Allen-Cahn front)', floor=3)
 def r9(ctx, R):
     from ..inline import facts as _facts
